@@ -195,6 +195,46 @@ theorem C05_unknown_type :
     simp [fromJsonAuto, autoDict, autoDictKV, jlookup, noClasses, ClassEnv.find, dsetK, fromJ, fromJKV, e, e2, e3,
       e.symm, e2.symm, e3.symm]
 
+/-! ### `auto_import` -/
+
+/-- The classes the loader can see: the registry, plus — with `auto_import=True` — the classes
+that are importable by module and qualified name although not registered
+(`auto_register = False`). -/
+def importEnv (registered : ClassEnv) (importable : List (Str × List Field)) (autoImport : Bool) : ClassEnv :=
+  if autoImport then ⟨registered.classes ++ importable⟩ else registered
+
+/-- A `_type` that names no class the loader can see is a TypeError, whatever else the dict holds
+(strict loader: `auto_import=False`, or not importable either). -/
+theorem C05_unregistered_class (env : ClassEnv) (ap : Bool) (c : Str) (rest : List (Key × JV))
+    (h : env.find c = none) :
+    fromJson env ap (.obj ((.s typeKey, .str c) :: rest)) = .error .type := by
+  simp [fromJson, resolveOk, jlookup, h]
+
+/-- Registered classes keep their schema when the importable ones are added … -/
+theorem importEnv_find (reg : ClassEnv) (imp : List (Str × List Field)) (c : Str) (fs : List Field)
+    (h : reg.find c = some fs) : (importEnv reg imp true).find c = some fs := by
+  simp only [importEnv, if_true, ClassEnv.find] at h ⊢
+  rw [List.find?_append]
+  cases hf : reg.classes.find? (fun p => p.1 == c) with
+  | none => simp [hf] at h
+  | some p => simpa [hf] using h
+
+/-- … and with `auto_import=True` every value over registered *and* importable classes round-trips
+(the round-trip theorem at the enlarged environment), while the same JSON is a TypeError for the
+strict loader as soon as it mentions an importable-only class at the top. -/
+theorem C05_auto_import_roundtrip (reg : ClassEnv) (imp : List (Str × List Field))
+    (hwf : (importEnv reg imp true).WF = true) (ap : Bool) (t : Tree)
+    (hc : Conforms (importEnv reg imp true) t = true) (he : Encodable false t = true)
+    (hm : ap = true ∨ NoMissing t = true) :
+    fromJson (importEnv reg imp true) ap (toJson (importEnv reg imp true) t) = .ok t :=
+  C05_roundtrip _ hwf ap t hc he hm
+
+theorem C05_auto_import_off (reg : ClassEnv) (imp : List (Str × List Field)) (ap : Bool) (c : Str)
+    (attrs : List (Str × Tree)) (h : reg.find c = none) :
+    fromJson (importEnv reg imp false) ap (toJson (importEnv reg imp true) (.obj c attrs)) = .error .type := by
+  simp only [importEnv, Bool.false_eq_true, if_false, toJson]
+  exact C05_unregistered_class reg ap c _ h
+
 /-! ## Codec: string form (`n_:` int keys) over an abstract JSON text layer -/
 
 /-- F11c: in the string form a str key that starts with `n_:` is indistinguishable from an int key:
